@@ -3,3 +3,4 @@ open ZCV.Props.C13
 #print axioms C13_start_keeps_schema
 #print axioms C13_stop_keeps_schema
 #print axioms C13_value_keeps_schema
+#print axioms C13_parse_without_import_keeps_schema
